@@ -2,8 +2,11 @@ from common import COMMON_TB, GRAPH_TB, g_wiring, g_lifecycle, g_runners
 
 PROP = dict(
     module="IocProofs.C05",
-    signatures=['c05-', 'd8-'],
-    subs=[dict(sub="graph", n_quick=1500, n_thorough=40000, project=g_lifecycle)],
+    signatures=['c05-', 'd8-', 'factory-half-built', 'factory-recreated', 'factory-deps-first'],
+    subs=[dict(sub="graph", n_quick=1500, n_thorough=40000, project=g_lifecycle),
+          # histories on the real factory with failing Init calls that the caller tolerates, then retries (lazy components,
+          # single / chain / cycle / diamond): a component handed out has completed Init exactly once, dependencies first
+          dict(sub="registry", n_quick=1200, n_thorough=60000)],
     thorough_seeds=2,
     level_text="Lifecycle order and exactly-once are invariants of the machine's event log for every scenario; dependencies-first follows from the stack invariant. The real event log (written by Init/AfterPropertiesSet methods of every universe type and by an observing post-processor) is compared event by event with the model's log.",
     level_note="Modelled, not verified: reflect, sync.Map order (imposed), sort.Slice, third-party callbacks as flags/functions. The graph sub-harness is shared with other properties: only this property's oracles and its projection of the observation are compared here.",
